@@ -393,12 +393,12 @@ class EmitterMachine(_Base):
         self.start({'salt': salt})      # (only varies the ambient process state of the case)
 
     @rule(cb=st.integers(0, 7), event=st.sampled_from([None, 'open', 'open', 'open', 'n_b', 'c']),
-          sender=st.sampled_from([None, None, 0, 0, 1, 2, 3]), last=st.booleans(),
+          sender=st.sampled_from([None, None, 0, 0, 1, 2, 3, 3]), last=st.booleans(),
           style=st.sampled_from(['direct', 'decorator']))
     def connect(self, cb, event, sender, last, style):
         self.do(dict(op='connect', cb=cb, event=event, sender=sender, last=last, style=style))
 
-    @rule(what=st.sampled_from(['cb', 'sender', 'owner']), i=st.integers(0, 5))
+    @rule(what=st.sampled_from(['cb', 'sender', 'owner']), i=st.integers(0, 7))
     def unconnect(self, what, i):
         n = {'cb': 8, 'sender': 4, 'owner': 2}[what]
         self.do(dict(op='unconnect', what=what, i=i % n))
@@ -423,7 +423,7 @@ class EmitterMachine(_Base):
         self.do(dict(op='leave'))
 
     @rule(event=st.sampled_from(['open', 'open', 'open', 'n_b', 'c']),
-          sender=st.sampled_from([None, 0, 0, 0, 1, 2, 3]),
+          sender=st.sampled_from([None, 0, 0, 1, 2, 3, 3]),
           args=st.lists(_small, max_size=2), kwargs=_kwargs, single=st.booleans())
     def emit(self, event, sender, args, kwargs, single):
         self.do(dict(op='emit', event=event, sender=sender, args=args, kwargs=kwargs,
